@@ -152,6 +152,11 @@ def run(ctx):
             w = r.randrange(0, 6)
             keys = r.sample(["a", "b", "c", "d", "e", "f"], w)
             d["order"] = list(keys)
+            if r.random() < 0.5:
+                # the per-line key order may list a repeated key several times, or be the default order of an
+                # attribute-less line: the weight is the number of attributes, not the length of this list
+                d["order"] = r.choice([list(keys) + list(keys[:1]) * r.randrange(1, 4), ["ID", "Name", "gene_id", "transcript_id"],
+                                       []])
             f = Feature(seqid="c", start=1, end=2, attributes={k: ["1"] for k in keys}, dialect=d)
             feats.append(f)
             obs.append((v, w))
@@ -165,6 +170,8 @@ def run(ctx):
         except Exception as ex:
             got = {"error": repr(ex)}
         want_v = weighted_choice_oracle(obs)
+        if got.get(key) != want_v or got.get("order") != keyorder:
+            pass
         if got.get(key) != want_v or got.get("order") != keyorder:
             res.oracle_failures.append(("_choose_dialect is not the weighted majority with first-seen ties / "
                                         "first-seen key order",
@@ -275,11 +282,17 @@ def run(ctx):
         if rows and not all(x and x["wf"] for x in rows):
             continue
         lines = [(rows[j]["line"] if rows else pc.py_wf_render(s)) for j, s in enumerate(specs)]
+        votes = [(t, len(s.attrs)) for (t, _), s in zip(obs, specs)]
+        if r.random() < 0.6:
+            # an attribute-less line (empty ninth column) votes with weight 0
+            pos = r.randrange(0, len(lines) + 1)
+            lines.insert(pos, "chr1\tsrc\tregion\t1\t9\t.\t+\t.\t")
+            votes.insert(pos, (False, 0))
         path = write_file(ctx, "m%d.gff" % i, lines)
         cl = r.choice([0, 1, nlines, 10])
         res.evaluations += 1
         it = iterators.DataIterator(path, checklines=cl)
-        want_t = weighted_choice_oracle([(t, len(s.attrs)) for (t, _), s in zip(obs[: cl + 1], specs)])
+        want_t = weighted_choice_oracle(votes[: cl + 1])
         if it.dialect["trailing semicolon"] != want_t:
             res.oracle_failures.append(("mixed window: trailing-semicolon choice is not the weighted majority",
                                         {"lines": lines, "checklines": cl, "chosen": it.dialect["trailing semicolon"],
@@ -287,10 +300,72 @@ def run(ctx):
         cmds.append("file %d none none %s" % (cl, pyside.enc_list(lines)))
         exp.append("ok " + pyside.enc_dialect(it.dialect)); tags.append(("DataIterator.dialect (mixture)", repr(lines)))
 
+    # the format of the DATABASE decides the semantics of update(), whatever dialect the new data is written in --------
+    import gen_db
+    import warnings
+    for i in range(10 if not ctx.thorough else 100):
+        gtf_db = [gen_db.gtf_line("chr1", "exon", 10, 50, "+", [("gene_id", ["G"]), ("transcript_id", ["T"])]),
+                  gen_db.gtf_line("chr1", "exon", 80, 120, "+", [("gene_id", ["G"]), ("transcript_id", ["T"])])]
+        n = r.randrange(1, 4)
+        new_gff_syntax = [gen_db.gff_line("chr1", "exon", 200 + 100 * j, 250 + 100 * j, "+",
+                                          [("gene_id", ["G"]), ("transcript_id", ["T%d" % r.randrange(2)]), ("Parent", ["P"])])
+                          for j in range(n)]
+        p1 = write_file(ctx, "u1.gtf", gtf_db)
+        p2 = write_file(ctx, "u2.gff3", new_gff_syntax)
+        cfg = dbside.Cfg()
+        db, rep = dbside.py_create(p1, cfg)
+        res.evaluations += 1
+        if db is None:
+            continue
+        before = len(list(db.all_features()))
+        try:
+            with warnings.catch_warnings():
+                warnings.simplefilter("ignore")
+                db.update(p2, make_backup=False, merge_strategy="create_unique")
+        except Exception as ex:
+            res.oracle_failures.append(("update of a GTF database with GFF3-syntax lines raised %r" % ex, {"db": gtf_db, "update": new_gff_syntax}))
+            continue
+        rels = set(dbside.rels_of(db))
+        bad = [l for l in new_gff_syntax if not any(c.startswith("exon_") and p == l.split("transcript_id=")[1].split(";")[0]
+                                                    and lv == 1 for p, c, lv in rels)]
+        if any(p == "P" for p, c, lv in rels) or bad:
+            res.oracle_failures.append(("update() of a GTF-format database did not apply GTF semantics to the new lines "
+                                        "(relations must come from transcript_id/gene_id, not from Parent)",
+                                        {"db": gtf_db, "update": new_gff_syntax, "relations": sorted(rels)}))
+        cmds.append(dbside.cmd_create(gtf_db, cfg)); exp.append(rep); tags.append(("create_db", repr(gtf_db)))
+        ucfg = dbside.Cfg(strategy="create_unique")
+        cmds.append(dbside.cmd_update(new_gff_syntax, ucfg)); exp.append("ok"); tags.append(("update routing", repr(new_gff_syntax)))
+        cmds.append("dump"); exp.append(dbside.dump(db)); tags.append(("tables after update", repr((gtf_db, new_gff_syntax))))
+        # and the reverse: a GFF3 database updated with GTF-syntax lines keeps GFF3 semantics
+        gff_db = [gen_db.gff_line("chr1", "gene", 1, 500, "+", [("ID", ["g"])])]
+        new_gtf_syntax = [gen_db.gtf_line("chr1", "exon", 10 + 100 * j, 50 + 100 * j, "+", [("gene_id", ["G"]), ("transcript_id", ["T"])])
+                          for j in range(n)]
+        p3 = write_file(ctx, "u3.gff3", gff_db)
+        p4 = write_file(ctx, "u4.gtf", new_gtf_syntax)
+        db, rep = dbside.py_create(p3, cfg)
+        if db is None:
+            continue
+        with warnings.catch_warnings():
+            warnings.simplefilter("ignore")
+            db.update(p4, make_backup=False, merge_strategy="create_unique")
+        if dbside.rels_of(db) or any(f.source == "gffutils_derived" for f in db.all_features()):
+            res.oracle_failures.append(("update() of a GFF3-format database applied GTF semantics to GTF-looking lines",
+                                        {"db": gff_db, "update": new_gtf_syntax, "relations": sorted(dbside.rels_of(db))}))
+        cmds.append(dbside.cmd_create(gff_db, cfg)); exp.append(rep); tags.append(("create_db", repr(gff_db)))
+        cmds.append(dbside.cmd_update(new_gtf_syntax, ucfg)); exp.append("ok"); tags.append(("update routing", repr(new_gtf_syntax)))
+        cmds.append("dump"); exp.append(dbside.dump(db)); tags.append(("tables after update", repr((gff_db, new_gtf_syntax))))
+
     out = ctx.model(cmds)
     if out is not None:
         for c, m, e, (comp, inp) in zip(cmds, out, exp, tags):
             res.corr_checked += 1
+            if comp.startswith("tables after update"):
+                a, b = dbside.parse_dump(m), dbside.parse_dump(e)
+                same = ("error" not in a and "error" not in b and
+                        sorted(map(str, a["features"])) == sorted(map(str, b["features"])) and a["relations"] == b["relations"])
+                if not same:
+                    res.corr_disagreements.append((comp, inp[:600], m[:500], e[:500]))
+                continue
             if comp.startswith("DataIterator.dialect"):
                 m = " ".join(m.split(" ")[:2])
             if m != e:
